@@ -247,8 +247,9 @@ package tracing
 //@ func c36TraceRow(n) = as(c36Row(traceTableName, n), "taskTableEntry")
 //@ func c36MsRow(n) = as(c36Row(milestoneTableName, n), "milestoneTableEntry")
 //@ func c36TagRow(n) = as(c36Row(tagTableName, n), "tagTableEntry")
-//@ pred c36MsRowOK(n, x, be) = hastype(c36Row(milestoneTableName, n), "milestoneTableEntry") && c36Rec[milestoneTableName][n] == be && c36MsRow(n).ID == x.ID && c36MsRow(n).TaskID == x.TaskID && c36MsRow(n).Kind == x.Kind && c36MsRow(n).What == x.What
-//@ pred c36TagRowOK(n, x, be) = hastype(c36Row(tagTableName, n), "tagTableEntry") && c36Rec[tagTableName][n] == be && c36TagRow(n).ID == x.ID && c36TagRow(n).TaskID == x.TaskID && c36TagRow(n).What == x.What
+// (`<= allocTop`: the boxed row is an allocated object, so boxing the next row cannot overwrite it)
+//@ pred c36MsRowOK(n, x, be) = hastype(c36Row(milestoneTableName, n), "milestoneTableEntry") && c36Val[milestoneTableName][n] <= allocTop && c36Rec[milestoneTableName][n] == be && c36MsRow(n).ID == x.ID && c36MsRow(n).TaskID == x.TaskID && c36MsRow(n).Kind == x.Kind && c36MsRow(n).What == x.What
+//@ pred c36TagRowOK(n, x, be) = hastype(c36Row(tagTableName, n), "tagTableEntry") && c36Val[tagTableName][n] <= allocTop && c36Rec[tagTableName][n] == be && c36TagRow(n).ID == x.ID && c36TagRow(n).TaskID == x.TaskID && c36TagRow(n).What == x.What
 //@ fn (*DBTracer).EndTask
 //@   property C36
 //@   requires c36Inv(t)
